@@ -383,6 +383,9 @@ func (e *histEnv) store(h int) (fs_db.Store, bool) {
 	return nil, false
 }
 
+// reqCtx: case option ctx=req
+var reqCtx bool
+
 func (e *histEnv) step(t []string) (res string) {
 	defer func() {
 		if r := recover(); r != nil {
@@ -390,6 +393,13 @@ func (e *histEnv) step(t []string) (res string) {
 		}
 	}()
 	ctx := context.Background()
+	if reqCtx {
+		// a request-scoped context: cancelled as soon as the call has returned (what a gRPC handler or an HTTP
+		// handler passes down); nothing the call started in the background may depend on it
+		c, cancel := context.WithCancel(ctx)
+		ctx = c
+		defer cancel()
+	}
 	atoi := func(s string) int { n, _ := strconv.Atoi(s); return n }
 	switch t[0] {
 	case "begin":
@@ -710,7 +720,11 @@ func histMain(path, mode string) int {
 		case "case":
 			closeAll()
 			roots, maxdir, keep, base = 1, 100, false, ""
+			reqCtx = false
 			for _, kv := range t[2:] {
+				if kv == "ctx=req" {
+					reqCtx = true
+				}
 				if strings.HasPrefix(kv, "roots=") {
 					roots, _ = strconv.Atoi(kv[6:])
 				}
